@@ -192,3 +192,6 @@ func c06loadInto(g *Gen, i int, prog []GenPkg, u *types.Universe) error {
 	_, err := p.LoadPackagesTo(u, pats...)
 	return err
 }
+
+// c11dirOf: where the loader says the package lives on disk
+func c11dirOf(p *types.Package) string { return p.Dir }
